@@ -1,5 +1,5 @@
 """C01 - composeinfo survives a write/read cycle unchanged."""
-import copy, json, os, tempfile
+import copy, json, os, re, tempfile
 import checklib
 from checklib import Prop
 from formats import composeinfo as F
@@ -13,10 +13,48 @@ def corrupt(rng, spec):
     """one change that the writer must refuse (or, for the last few, accept): exercises the writer's error branches"""
     s = copy.deepcopy(spec)
     vs = _variants(s)
-    kinds = ["version", "rel_type", "label", "date", "ctype", "cid", "no_base", "bp_version"]
+    kinds = ["version", "rel_type", "label", "date", "ctype", "cid", "no_base", "bp_version", "falsy", "falsy", "nearmiss", "nontype"]
     if vs:
         kinds += ["vid", "vuid", "varch", "noarch", "blank_name", "lp_norelease", "vtype", "dup_uid", "lp_rel_type", "child_key_uid", "top_key", "dup_child"]
     k = rng.choice(kinds)
+    FALSY = [None, False, 0, 0.0, "", [], {}]
+    if k in ("falsy", "nontype"):
+        # a falsy value of every type / a value of another type, in any field (GENERATOR_AUDIT A8); JSON-able values only
+        # (the case must be replayable from a file), so tuple() / set() are left to C06
+        val = rng.choice(FALSY) if k == "falsy" else rng.choice([1, 1.5, True, "x", ["x"], {"x": 1}])
+        targets = [("compose", f) for f in ("id", "type", "date", "respin", "label", "final")] + \
+                  [("release", f) for f in ("name", "short", "version", "type", "is_layered", "internal")]
+        if s["release"]["is_layered"] and s["base_product"] is not None:
+            targets += [("base_product", f) for f in ("name", "short", "version", "type")]
+        targets += [("variant", f) for f in ("id", "uid", "name", "type", "arches")] * (2 if vs else 0)
+        lp = [v for v in vs if v["type"] == F.LP and v["release"] is not None]
+        targets += [("vrelease", f) for f in ("name", "version", "type", "internal")] * (1 if lp else 0)
+        sec, f = rng.choice(targets)
+        if sec == "variant":
+            v = rng.choice(vs)
+            v[f] = val
+            if f == "id":
+                v["key"] = val if isinstance(val, str) else "k"
+        elif sec == "vrelease":
+            rng.choice(lp)["release"][f] = val
+        else:
+            if sec == "compose" and f == "final" and not s["compose"]["label"]:
+                s["compose"]["label"] = "RC-1.0"          # final is only looked at next to a label
+            s[sec][f] = val
+        return "%s:%s.%s" % (k, sec, f), s
+    if k == "nearmiss":
+        # near misses, proper prefixes and extensions of the enumeration literals (GENERATOR_AUDIT A7 / C2)
+        which = rng.choice(["rel_type", "ctype", "label", "vtype", "lp_literal"])
+        if which == "rel_type":
+            s["release"]["type"] = rng.choice(["updates-testin", "updates-testing2", "e4", "e4s2", "ga ", " ga", "Ga", "update", "eus\n\n", "fast-"])
+        elif which == "ctype":
+            s["compose"]["type"] = rng.choice(["productio", "production2", "nightly2", "n", "t", "CI", "test ", "developmen"])
+        elif which == "label":
+            s["compose"]["label"] = rng.choice(["RC-1", "Update-1.0x", "Updates-1.0", "Snapshot-1.0 ", "RC1.0", "RC--1.0", "SecurityFi-1.0", "EA-1.", "Beta-.1", " RC-1.0", "Alpha-1.0\n\n"])
+        elif vs:
+            v = rng.choice(vs)
+            v["type"] = rng.choice(["layered-produc", "layered-product2", "layered_product", "addons", "variants", "Optional", "option"])
+        return "nearmiss:" + which, s
     if k == "version":
         s["release"]["version"] = rng.choice(["1..2", "1.", "7x", "", "1.2\n"])
     elif k == "rel_type":
@@ -80,13 +118,15 @@ def corrupt(rng, spec):
         elif k == "top_key":
             t = rng.choice(s["variants"])
             t["key"] = rng.choice([t["uid"], t["id"] + "x"])
+            while sum(1 for x in s["variants"] if x["key"] == t["key"]) > 1:
+                t["key"] += "x"                  # a dict cannot hold two values under one key
     return k, s
 
 
 class C01(Prop):
     id = "C01"
     lean_module = "ProductMD.Properties.C01"
-    quick_budget = 750
+    quick_budget = 560
     thorough_budget = 20000
     rule = ("generated compose descriptions (all release/compose types, labels, layered/internal, forests to depth 4 with all variant "
             "types, layered-product releases, dashed top-level UIDs, child arches within the parent's, any subset of the 14 categories, "
@@ -108,21 +148,38 @@ class C01(Prop):
         self._cache = {}
 
     # ---- generators
+    FILE_MODES = [False, "existing", False, "long", False, "new", False, "symlink", False, "fileobj"]
+    BREAKS = [("compose.label", "GA"), ("compose.date", "2015"), ("compose.type", "prod"), ("release.version", "1..2"),
+              ("release.type", "GA"), ("compose.id", ""), ("release.internal", None), ("compose.respin", "1")]
+
     def cases(self, rng, tier, budget):
         checklib.use_repo()
         g = F.Gen(rng, tier)
+        yield {"op": "tables", "args": {}}            # documented enumerations == the code's tables (both inclusions)
         for i in range(budget):
             spec = g.spec()
             if i % 7 == 5:
                 kind, bad = corrupt(rng, spec)
                 yield {"op": "roundtrip", "args": {"spec": bad, "raw": True, "corrupt": kind, "file": False}}
-            else:
-                args = {"spec": spec, "raw": False, "file": i % 5 == 3, "style": F.gen_style(rng)}
-                if i % 3 == 1:
-                    # a second description assembled in the same process, construction steps interleaved
-                    args["other"] = g.spec()
-                    args["other_style"] = F.gen_style(rng)
-                yield {"op": "roundtrip", "args": args}
+                continue
+            if i % 11 == 7:
+                kind, odd = g.untyped(spec)
+                yield {"op": "roundtrip", "args": {"spec": odd, "raw": False, "untyped": kind, "file": False, "style": F.gen_style(rng)}}
+                continue
+            args = {"spec": spec, "raw": False, "file": self.FILE_MODES[i % len(self.FILE_MODES)], "style": F.gen_style(rng),
+                    "probe": i % 2 == 0}
+            if i % 3 == 1:
+                # a second description assembled in the same process, construction steps interleaved
+                args["other"] = g.spec()
+                args["other_style"] = F.gen_style(rng)
+            if i % 4 == 2:
+                args["history"] = g.history(spec)[0]          # dump -> modify -> dump and load -> modify -> dump
+            if i % 5 == 4:
+                f, bad = self.BREAKS[(i // 5) % len(self.BREAKS)]
+                args["break"] = {"field": f, "bad": bad}       # failed dump -> repair -> dump
+            if i % 13 == 6:
+                args["preload"] = g.spec()                     # the text is loaded into an object that already holds a compose
+            yield {"op": "roundtrip", "args": args}
 
     # ---- real side
     def real(self, case):
@@ -132,6 +189,9 @@ class C01(Prop):
 
     def _real(self, case):
         checklib.use_repo()
+        if case["op"] == "tables":
+            return {"tables": F.tables()}
+        import shutil
         from productmd.composeinfo import ComposeInfo
         a = case["args"]
         out = {}
@@ -144,46 +204,72 @@ class C01(Prop):
                 ci = F.build(a["spec"], raw=a.get("raw", False), style=a.get("style"))
         except Exception as e:  # noqa
             return {"build": checklib.err_class(e)}
-        out["built"] = F.snap(ci)                     # what the library holds after construction, before any write
+        if a.get("probe"):
+            out["probe"] = len(F.probe(ci))           # every public read-only entry point; must leave the description alone
+            if other is not None:
+                F.probe(other)
+        out["built"] = F.snap(ci)                     # what the library holds after construction (and probing), before any write
         if other is not None:
             out["other_built"] = F.snap(other)
         if a.get("alias_top") is not None:
-            # F26 region: an already placed child is handed to ci.variants.add() again (accepted against its stale parent)
-            def find(c, uid):
-                for v in c.variants.values():
-                    if v.uid == uid:
-                        return v
-                    r = find(v, uid)
-                    if r is not None:
-                        return r
-                return None
+            # F26 region: an already placed child is handed to ci.variants.add() again
             try:
-                ci.variants.add(find(ci.variants, a["alias_top"]))
+                ci.variants.add(F.find_variant(ci, a["alias_top"]))
             except Exception as e:  # noqa
                 return {"build": checklib.err_class(e)}
-        tmp = None
+        mode = a.get("file")
+        mode = "existing" if mode is True else mode
+        tmpdir = tempfile.mkdtemp(prefix="c01-") if mode else None
         try:
-            if a.get("file"):
-                fd, tmp = tempfile.mkstemp(suffix=".json")
-                os.close(fd)
+            path = target = None
+            if mode:
+                target = os.path.join(tmpdir, "composeinfo.json")
+                path = target
+                if mode == "existing":
+                    open(target, "w").close()
+                elif mode == "long":
+                    with open(target, "w") as f:
+                        f.write("{" + "x" * 200000)               # longer than anything written: must be truncated
+                elif mode == "symlink":
+                    path = os.path.join(tmpdir, "link.json")
+                    open(target, "w").close()
+                    os.symlink(target, path)
 
             def dump(obj):
-                if tmp is None:
+                if not mode:
                     return obj.dumps()
-                obj.dump(tmp)
-                with open(tmp) as f:
+                if mode == "fileobj":
+                    with open(target, "w") as f:
+                        obj.dump(f)
+                else:
+                    obj.dump(path)
+                with open(target) as f:
                     return f.read()
 
-            def load(text):
-                c2 = ComposeInfo()
-                if tmp is None:
+            def load(text, into=None):
+                c2 = into if into is not None else ComposeInfo()
+                if not mode:
                     c2.loads(text)
                 else:
-                    with open(tmp, "w") as f:
+                    with open(target, "w") as f:
                         f.write(text)
-                    c2.load(tmp)
+                    if mode == "fileobj":
+                        with open(target) as f:
+                            c2.load(f)
+                    else:
+                        c2.load(path)
                     c2.validate()
                 return c2
+
+            def cycle(obj):
+                """dumps -> loads of one object: (text, snapshot) or error class"""
+                try:
+                    t = obj.dumps()
+                    c = ComposeInfo()
+                    c.loads(t)
+                    return {"ok": F.snap(c), "stable": obj.dumps() == t and c.dumps() == t}
+                except Exception as e:  # noqa
+                    return checklib.err_class(e)
             try:
                 text = dump(ci)
             except Exception as e:  # noqa
@@ -191,38 +277,88 @@ class C01(Prop):
                 return out
             out["dumps"] = {"ok": text}
             out["after"] = F.snap(ci)                 # the description after writing (the writer forces is_layered on variants)
+            # the same call again; the dict handed back by serialize() must not alias the object's state
+            try:
+                again = dump(ci)
+                p = ci.serialize({})
+                for sec in list(p.get("payload", {}).values()):
+                    if isinstance(sec, dict):
+                        for k in list(sec):
+                            if isinstance(sec[k], dict):
+                                for kk in list(sec[k]):
+                                    if isinstance(sec[k][kk], (list, dict)):
+                                        sec[k][kk].clear()
+                                sec[k].clear()
+                        sec.clear()
+                out["again"] = {"same": again == text, "after_alias": ci.dumps() == text}
+            except Exception as e:  # noqa
+                out["again"] = checklib.err_class(e)
             if other is not None:
                 out["other_after"] = F.snap(other)    # the bystander must not be touched by writing / reading the first one
-                try:
-                    t2 = other.dumps()
-                    c3 = ComposeInfo()
-                    c3.loads(t2)
-                    out["other_loads"] = {"ok": F.snap(c3)}
-                except Exception as e:  # noqa
-                    out["other_loads"] = checklib.err_class(e)
+                ol = cycle(other)
+                out["other_loads"] = ol if "err" in ol else {"ok": ol["ok"]}
             try:
                 c2 = load(text)
             except Exception as e:  # noqa
                 out["loads"] = checklib.err_class(e)
                 return out
             out["loads"] = {"ok": F.snap(c2)}
+            out["header"] = [ci.header.version, c2.header.version]
             try:
                 out["redump"] = {"ok": dump(c2)}
             except Exception as e:  # noqa
                 out["redump"] = checklib.err_class(e)
+            if a.get("preload") is not None:
+                try:
+                    pre_text = F.build(a["preload"]).dumps()
+                    c4 = ComposeInfo()
+                    c4.loads(pre_text)
+                    try:
+                        c4.loads(text)
+                        out["preload"] = {"ok": F.snap(c4)}
+                    except Exception as e:  # noqa
+                        out["preload"] = checklib.err_class(e)
+                except Exception as e:  # noqa
+                    out["preload"] = {"skip": type(e).__name__}
+            if a.get("break") is not None:
+                b = a["break"]
+                objname, attr = b["field"].split(".")
+                obj = getattr(ci, objname)
+                good = getattr(obj, attr)
+                setattr(obj, attr, b["bad"])
+                try:
+                    ci.dumps()
+                    res = {"refused": False}
+                except Exception as e:  # noqa
+                    res = {"refused": type(e).__name__}
+                setattr(obj, attr, good)
+                try:
+                    res["text_same"] = ci.dumps() == text
+                    res["snap"] = F.snap(ci)
+                except Exception as e:  # noqa
+                    res["err"] = type(e).__name__
+                out["break"] = res
+            if a.get("history") is not None:
+                for name, obj in (("hist_orig", ci), ("hist_loaded", c2)):
+                    try:
+                        F.apply_ops(obj, a["history"])
+                        out[name] = cycle(obj)
+                    except Exception as e:  # noqa
+                        out[name] = {"err": type(e).__name__, "stage": "apply"}
             return out
         finally:
-            if tmp is not None:
-                try:
-                    os.unlink(tmp)
-                except OSError:
-                    pass
+            if tmpdir is not None:
+                shutil.rmtree(tmpdir, ignore_errors=True)
 
     # ---- model side
     def model_requests(self, case):
+        if case["op"] == "tables":
+            return []
         a = case["args"]
         if a.get("alias_top") is not None:
             return []           # not a forest: outside the tree model (the arena model of C11 covers it)
+        if not typed_ok(a["spec"]):
+            return []           # outside the typed domain of the model (bool respin, non-string path, falsy of another type): oracle only
         spec = F.strip_parent(a["spec"])
         reqs = [{"op": "composeinfo_dumps", "args": {"spec": spec}},
                 {"op": "composeinfo_serialize", "args": {"spec": spec}}]
@@ -257,7 +393,11 @@ class C01(Prop):
         if checklib.canon(real_out.get("dumps")) != checklib.canon(model_out.get("dumps")):
             diffs["dumps"] = (real_out.get("dumps"), model_out.get("dumps"))
         if "doc" in model_out and "ok" in (real_out.get("dumps") or {}):
-            if json.loads(real_out["dumps"]["ok"]) != model_out["doc"]:
+            try:
+                parsed = json.loads(real_out["dumps"]["ok"])
+            except ValueError:
+                parsed = "<the written text is not a JSON document>"
+            if parsed != model_out["doc"]:
                 diffs["doc"] = "serialize() value differs from the parsed real text"
         for k in ("loads", "redump"):
             if k in real_out or k in model_out:
@@ -270,6 +410,15 @@ class C01(Prop):
 
     # ---- the property itself, on the real library
     def oracle(self, case, real_out):
+        if case["op"] == "tables":
+            t = real_out["tables"]
+            for name, doc in (("categories", F.CATEGORIES), ("release_types", F.DOC_RELEASE_TYPES), ("compose_types", F.DOC_COMPOSE_TYPES),
+                              ("label_names", F.DOC_LABEL_NAMES), ("variant_types", F.DOC_VARIANT_TYPES)):
+                if sorted(t[name]) != sorted(doc):
+                    return {"observed": {"table": name, "missing": sorted(set(doc) - set(t[name])), "extra": sorted(set(t[name]) - set(doc)),
+                                         "duplicates": len(t[name]) != len(set(t[name]))},
+                            "required": "the code's table is exactly the documented set", "kind": "table-differs"}
+            return None
         a = case["args"]
         # what the objects hold after construction is what was put in (any documented way of filling them, two
         # descriptions assembled side by side)
@@ -294,6 +443,10 @@ class C01(Prop):
                             "required": "every documented field read back equal to what was written (normal form)", "kind": "fields-differ"}
         d = real_out.get("dumps")
         if not d or "ok" not in d:
+            if not a.get("raw") and a.get("alias_top") is None and typed_ok(a["spec"]):
+                # every value of the valid stream is legal per the quantifier (documented enumerations, free text, any respin ...)
+                return {"observed": {"build": real_out.get("build"), "dumps": d}, "required": "a legal description is accepted and written",
+                        "kind": "refused-valid"}
             return None                                    # the library did not agree to write this description
         want = F.canon(F.norm(a["spec"]))
         if a.get("alias_top") is not None:
@@ -316,27 +469,69 @@ class C01(Prop):
             return {"observed": {"redump": rd}, "required": "the re-read object can be written", "kind": "redump-refused"}
         if rd["ok"] != d["ok"]:
             return {"observed": first_text_diff(d["ok"], rd["ok"]), "required": "second dumps() byte-identical to the first", "kind": "bytes-differ"}
+        ag = real_out.get("again")
+        if ag is not None and not (ag.get("same") and ag.get("after_alias")):
+            return {"observed": ag, "required": "a second dumps() of the same object, also after the dict returned by serialize() was emptied, gives the same text",
+                    "kind": "repeat-differs"}
+        hv = real_out.get("header")
+        if hv is not None and (hv[0] != hv[1] or not re.match(r"^\d+\.\d+$", str(hv[0]))):
+            return {"observed": hv, "required": "header version of the written and the re-read object is the current one", "kind": "header-version"}
+        br = real_out.get("break")
+        if br is not None:
+            if br.get("refused") and not (br.get("text_same") and F.same_description(a["spec"], br.get("snap") or {}, force_layered=True) is None):
+                return {"observed": dict((k, v) for k, v in br.items() if k != "snap"),
+                        "required": "after a refused dumps() and the repair of the offending attribute the object is written exactly as before",
+                        "kind": "failed-dump-left-traces"}
+        for name, base in (("hist_orig", a["spec"]), ("hist_loaded", None)):
+            h = real_out.get(name)
+            if h is None:
+                continue
+            if base is None:
+                base = F.strip_parent(F.norm(a["spec"]))
+            want_h = F.canon(F.norm(F.apply_ops_spec(copy.deepcopy(base), a["history"])))
+            if "ok" not in h:
+                return {"observed": h, "required": "a description modified through the public API is written and read back (%s)" % name, "kind": "history-refused"}
+            got_h = F.canon(h["ok"])
+            if got_h != want_h or not h.get("stable"):
+                return {"observed": dict(first_diff(got_h, want_h) or {"stable": h.get("stable")}, which=name, ops=[o["op"] for o in a["history"]]),
+                        "required": "after modifications through the public API the written description is read back equal to the modified one",
+                        "kind": "history-differs"}
+        pl = real_out.get("preload")
+        if pl is not None and "skip" not in pl:
+            pre_top = set(v["id"] for v in a["preload"]["variants"])
+            facts = {"error": pl.get("err"), "leftover_top_level": [], "leftover_base_product": False,
+                     "clashing_top_level_ids": sorted(pre_top & set(v["id"] for v in a["spec"]["variants"]))}
+            ok = False
+            if "ok" in pl:
+                got_p = F.canon(pl["ok"])
+                if got_p == want:
+                    ok = True
+                else:
+                    facts["leftover_top_level"] = sorted(v["key"] for v in got_p["variants"] if v["key"] in pre_top and v["key"] not in set(x["key"] for x in want["variants"]))
+                    rest = dict(got_p, variants=[v for v in got_p["variants"] if v["key"] not in facts["leftover_top_level"]])
+                    if rest.get("base_product") is not None and want.get("base_product") is None:
+                        facts["leftover_base_product"] = True
+                        rest["base_product"] = None
+                    facts["rest_equal"] = rest == want
+            if not ok:
+                return {"observed": facts, "required": "loads() into an object that already holds a compose gives the loaded description",
+                        "kind": "reload-into-nonempty"}
         # writing must not alter the description itself beyond the documented is_layered forcing
         aft = real_out.get("after")
         if aft is not None and not a.get("raw") and a.get("alias_top") is None:
-            before = F.canon(a["spec"])
-            for v, _ in F.walk(before):
-                if v["type"] == F.LP and v["release"] is not None:
-                    v["release"]["is_layered"] = True
-            after = F.canon(aft)
-            for v, _ in F.walk(after):
-                v.pop("parent", None)
-                v["paths"] = dict((c, t) for c, t in v["paths"].items() if t)
-            for v, _ in F.walk(before):
-                v["paths"] = dict((c, t) for c, t in v["paths"].items() if t)
-            if before != after:
-                return {"observed": first_diff(after, before), "required": "dumps() leaves the description unchanged", "kind": "writer-mutates"}
+            diff = F.same_description(a["spec"], aft, force_layered=True)
+            if diff is not None:
+                return {"observed": first_diff(diff[0], diff[1]), "required": "dumps() leaves the description unchanged", "kind": "writer-mutates"}
         return None
 
     def nontrivial(self, case, real_out):
+        if case["op"] == "tables":
+            return True
         return "ok" in (real_out.get("dumps") or {})
 
     def stats(self, case, real_out, dist):
+        if case["op"] == "tables":
+            return
         a = case["args"]
         spec = a["spec"]
         d = real_out.get("dumps") or {}
@@ -363,6 +558,8 @@ class C01(Prop):
                 dist["cat:" + cat] = dist.get("cat:" + cat, 0) + 1
 
     def shrink_candidates(self, case):
+        if case["op"] == "tables":
+            return []
         a = case["args"]
         spec = a["spec"]
         out = []
@@ -419,6 +616,30 @@ class C01(Prop):
                     if a[k].get(f) != F.DEFAULT_STYLE[f]:
                         c = copy.deepcopy(case); c["args"][k][f] = F.DEFAULT_STYLE[f]; out.append(c)
         return out
+
+
+def typed_ok(spec):
+    """does the description lie in the typed domain of the Lean model (str / int-not-bool / bool / list of str / dict of str)?"""
+    def st(x):
+        return isinstance(x, str)
+
+    def rel(r, full):
+        return isinstance(r, dict) and all(st(r.get(k)) for k in ("name", "short", "version", "type")) and \
+            (not full or (isinstance(r.get("is_layered"), bool) and isinstance(r.get("internal"), bool)))
+    c = spec["compose"]
+    if not (st(c["id"]) and st(c["type"]) and st(c["date"]) and isinstance(c["respin"], int) and not isinstance(c["respin"], bool)
+            and (c["label"] is None or st(c["label"])) and isinstance(c["final"], bool)):
+        return False
+    if not rel(spec["release"], True) or not (spec["base_product"] is None or rel(spec["base_product"], False)):
+        return False
+    for v, _ in F.walk(spec):
+        if not (st(v["key"]) and st(v["id"]) and st(v["uid"]) and st(v["name"]) and st(v["type"]) and isinstance(v["arches"], list)
+                and all(st(x) for x in v["arches"]) and (v["release"] is None or rel(v["release"], True))):
+            return False
+        for cat, t in v["paths"].items():
+            if not isinstance(t, dict) or not all(st(k) and st(x) for k, x in t.items()):
+                return False
+    return True
 
 
 def first_diff(got, want, path=""):
